@@ -143,7 +143,7 @@ pub async fn drive(ctl: &Arc<Ctl>, ntasks: usize, prefs: &[usize], finished: &dy
             let settled = (0..ntasks).all(|i| finished(i) || waiting.contains_key(&i));
             drop(waiting);
             spins += 1;
-            if settled || spins > 20_000 {
+            if settled || spins > 3_000 {
                 break;
             }
         }
